@@ -304,6 +304,46 @@ pub fn datetime(rng: &mut Rng, cfg: &Cfg) -> DateTime {
     DateTime::from(dt)
 }
 
+/// timestamps around the offset transitions of a few zones in one year: one second before/after
+/// the transition, and inside the repeated / after the skipped local hour
+pub fn dst_edge_datetimes() -> Vec<DateTime> {
+    use chrono::Offset;
+    let zones = [
+        chrono_tz::America::New_York,
+        chrono_tz::America::Chicago,
+        chrono_tz::Europe::Berlin,
+        chrono_tz::Europe::London,
+        chrono_tz::Australia::Sydney,
+        chrono_tz::Australia::Lord_Howe,
+        chrono_tz::America::St_Johns,
+        chrono_tz::Pacific::Chatham,
+        chrono_tz::Asia::Tehran,
+        chrono_tz::America::Sao_Paulo,
+    ];
+    let mut out = Vec::new();
+    for tz in zones {
+        // 2018-01-01 .. 2022-01-01 in 30 minute steps
+        let mut t: i64 = 1_514_764_800;
+        let end: i64 = 1_640_995_200;
+        let mut prev = tz.timestamp_opt(t, 0).single().unwrap().offset().fix().local_minus_utc();
+        let mut found = 0;
+        while t < end && found < 6 {
+            t += 1800;
+            let off = tz.timestamp_opt(t, 0).single().unwrap().offset().fix().local_minus_utc();
+            if off != prev {
+                found += 1;
+                for d in [-3601i64, -1800, -1, 0, 1, 900, 1799, 1800, 3599, 3600, 5400] {
+                    for ns in [0u32, 500_000_000] {
+                        out.push(DateTime::from(tz.timestamp_opt(t - 1800 + d, ns).single().unwrap()));
+                    }
+                }
+                prev = off;
+            }
+        }
+    }
+    out
+}
+
 pub fn coord(rng: &mut Rng, cfg: &Cfg) -> Coord {
     if cfg.wf {
         let lat = match rng.below(4) {
